@@ -13,7 +13,7 @@
 #ifndef LL
 #define LL 3
 #endif
-#define CLS (SL_ASCII | SL_2B)
+#define CLS (SL_ASCII | SL_2B | SL_2BU)	/* U+00E9 and U+00C9: a case pair that only ASCII folding must not touch */
 void harness(void)
 {
 	char pat[32], line[LL * 4 + 2];
